@@ -346,8 +346,49 @@ func c19ShapeFor(tier string) c19Shape {
 	}
 }
 
+// c19Rename maps the abstract component names to other names: real vouch path names (where a parent
+// component ends in characters that occur in its child, as in strategies.attestationdata.best) and
+// repeated names (a.a.a), so that a lookup that mangles the path is exposed.
+func c19Rename(variant int, path string) string {
+	if variant == 0 || path == "" {
+		return path
+	}
+	letters := map[byte]string{'a': "strategies", 'b': "attestationdata", 'c': "best", 'd': "deeper", 'e': "east", 'x': "submitter", 'y': "multinode", 'z': "zone"}
+	if variant == 2 {
+		letters = map[byte]string{'a': "a", 'b': "a", 'c': "a", 'd': "a", 'e': "a", 'x': "xa", 'y': "a", 'z': "xa"}
+	}
+	comps := strings.Split(path, ".")
+	for i, c := range comps {
+		out := ""
+		for j := 0; j < len(c); j++ {
+			out += letters[c[j]]
+		}
+		comps[i] = out
+	}
+	return strings.Join(comps, ".")
+}
+
 func c19Units(tier string) []hx.Unit {
+	var units []hx.Unit
+	variants := 2
+	if tier == "thorough" {
+		variants = 3
+	}
+	for variant := 0; variant < variants; variant++ {
+		units = append(units, c19UnitsFor(tier, variant)...)
+	}
+	return units
+}
+
+func c19UnitsFor(tier string, variant int) []hx.Unit {
 	sh := c19ShapeFor(tier)
+	for _, l := range []*[]string{&sh.chain, &sh.side, &sh.paths} {
+		r := make([]string, len(*l))
+		for i, p := range *l {
+			r[i] = c19Rename(variant, p)
+		}
+		*l = r
+	}
 	var units []hx.Unit
 	for _, acc := range c19Accessors {
 		for _, src := range sh.sources {
@@ -357,7 +398,7 @@ func c19Units(tier string) []hx.Unit {
 				}
 				acc, src, mask := acc, src, mask
 				st := &c19State{}
-				u := hx.Unit{Name: fmt.Sprintf("C19/%s/%s/present-%0*b", acc.name, src, len(sh.chain), mask), Cfg: mc.Config{Fixed: true}, Bound: 0}
+				u := hx.Unit{Name: fmt.Sprintf("C19/names%d/%s/%s/present-%0*b", variant, acc.name, src, len(sh.chain), mask), Cfg: mc.Config{Fixed: true}, Bound: 0}
 				u.Body = func() {
 					*st = c19State{}
 					// the configuration tree
